@@ -772,10 +772,27 @@ func (r *Run) stepIterBurst() {
 			desc = fmt.Sprintf("snapshot@%d", s.born)
 		}
 	}
+	useFilter := false
 	if it == nil {
-		useFilter := r.K.MaskFilterDiff && mo.MaskSuffix != "" && r.rng.IntN(2) == 0
+		if r.K.MaskFilterDiff && r.K.Masking && r.rng.IntN(2) == 0 {
+			// masking-heavy deck: combined iteration with a mask suffix
+			mo.KeyTypes = model.PointsAndRanges
+			if mo.MaskSuffix == "" {
+				mo.MaskSuffix = fmt.Sprintf("@%d", 1+r.rng.IntN(r.Cfg.MaxSuffix+1))
+			}
+		}
+		useFilter = r.K.MaskFilterDiff && mo.MaskSuffix != "" && r.rng.IntN(3) != 0
 		if useFilter {
 			r.count("bursts_with_filter_mask", 1)
+			if r.K.Maint && r.rng.IntN(2) == 0 {
+				// block-property filters only act on tables: move the memtable out
+				if err := r.db.Flush(); err != nil {
+					r.fail("flush-error", "Flush: %v", err)
+					return
+				}
+				r.durable("flush")
+				r.count("flushes_before_filter_bursts", 1)
+			}
 		}
 		it, err = r.db.NewIter(r.toPebbleOpts(mo, useFilter))
 	}
@@ -783,8 +800,8 @@ func (r *Run) stepIterBurst() {
 		r.fail("iter-op-mismatch", "NewIter: %v", err)
 		return
 	}
-	io := &iterObj{it: it, m: model.NewIter(st, mo), desc: fmt.Sprintf("%s-iter%v", desc, mo), born: r.step}
-	r.log("burst on %s", io.desc)
+	io := &iterObj{it: it, m: model.NewIter(st, mo), desc: fmt.Sprintf("%s-iter%v", desc, mo), born: r.step, useFilter: useFilter}
+	r.log("burst on %s filter=%v", io.desc, useFilter)
 	r.iterOps(io, r.K.IterBurst)
 	if err := it.Close(); err != nil && !r.failed {
 		r.fail("iterator-close-error", "%v", err)
@@ -1082,8 +1099,11 @@ func (r *Run) iterOps(io *iterObj, n int) {
 			}
 		case "SetOptions":
 			mo := r.randIterOpts()
+			if io.useFilter && mo.MaskSuffix == "" && r.rng.IntN(2) == 0 {
+				mo.KeyTypes, mo.MaskSuffix = model.PointsAndRanges, m.Opts().MaskSuffix
+			}
 			trace = append(trace, fmt.Sprintf("SetOptions(%v)", mo))
-			it.SetOptions(r.toPebbleOpts(mo, false))
+			it.SetOptions(r.toPebbleOpts(mo, io.useFilter && mo.MaskSuffix != ""))
 			m.SetOpts(mo)
 			r.count("iter_ops_checked", 1)
 			if it.Valid() {
